@@ -8,9 +8,9 @@ package main
 // encoding/json is replaced by the same model codec (round-trip contract).
 
 import (
-	"strings"
 	"fmt"
 	"go/types"
+	"strings"
 )
 
 type keyState struct {
